@@ -754,6 +754,17 @@ func (w *vWorld) doSave() {
 		}
 		found := false
 		_ = w.r.ReadJob(vj.id, func(x *PipelineJob) { found = true })
+		if w.undefined {
+			// jobs of a pipeline that is no longer defined are purged; a job that still executes may stay
+			// until it has finished - the save after that removes it
+			verifAssert(!found || vj.live, "C12.undefined-pipeline-purged")
+			if found && vj.live {
+				verifReach("save.kept-an-executing-job")
+			}
+			if !found && vj.returned {
+				verifReach("save.purged-a-job-that-had-been-kept")
+			}
+		}
 		if !found {
 			vj.removed = true
 			verifEvent("  removed " + vj.name)
